@@ -76,6 +76,9 @@ func init() {
 			if w.Batch == 1 {
 				c01RootTip(w)
 			}
+			if w.Batch == 2 {
+				c01TruncationRace(w)
+			}
 			runRandomScenarios(w, []string{"C01"}, w.Pick(12, 60), func(p *ledger.Profile) { p.POverdraft = 0.35; p.PForge = 0.2 }, nil)
 			c01Truncation(w)
 		},
@@ -89,8 +92,10 @@ func init() {
 		},
 		Plan: ledgerPlan(8, 56),
 		Worker: func(w *core.WorkerCtx) {
-			runRandomScenarios(w, []string{"C03"}, w.Pick(10, 50), func(p *ledger.Profile) { p.PReplay = 0.3; p.PConcurrent = 0.12 }, c03SyncReplay)
+			// (every fourth transaction is dated 8 to 400 days in the past: replay protection does not depend on age)
+			runRandomScenarios(w, []string{"C03"}, w.Pick(10, 50), func(p *ledger.Profile) { p.PReplay = 0.3; p.PConcurrent = 0.12 }, c03SyncReplay, func(d *ledger.Driver) { d.W.OldEvery = 4 })
 			c03Concurrent(w)
+			concurrentDupChild(w, []string{"C03"})
 			c03Truncation(w)
 			if w.Batch == 3 {
 				// a truncation over a wallet whose summed inflow does not fit 64 bits must still leave every vertex in
@@ -109,6 +114,7 @@ func init() {
 		Plan: ledgerPlan(8, 56),
 		Worker: func(w *core.WorkerCtx) {
 			runRandomScenarios(w, []string{"C09"}, w.Pick(12, 60), func(p *ledger.Profile) { p.PForge = 0.25; p.PReplay = 0.12 }, c09SyncAfter)
+			concurrentDupChild(w, []string{"C09"})
 			c09Truncation(w)
 		},
 	})
